@@ -3,8 +3,9 @@
 what we confirmed ourselves (demo clean/patched, ruff, existing tests, our check's verdict)."""
 import json, os, shutil, sys
 
-SRC = "/tmp/seeds"
+SRC = os.environ.get("SEED_SRC", "/tmp/seeds")
 DST = "/verif/seeded"
+PREFIX = os.environ.get("SEED_PREFIX", "")
 res_files = sys.argv[1:] or ["/tmp/seedres.jsonl"]
 checks: dict[str, list] = {}
 for rf in res_files:
@@ -16,7 +17,7 @@ for rf in res_files:
             d = json.loads(l)
             checks.setdefault(d["id"], []).append(d)
 tests = {}
-for tf in ("/tmp/seedtests.jsonl", "/tmp/seedtests2.jsonl"):
+for tf in os.environ.get("SEED_TESTS", "/tmp/seedtests.jsonl").split(","):
     if os.path.exists(tf):
         for l in open(tf):
             l = l.strip()
@@ -28,7 +29,7 @@ for sid in sorted(os.listdir(SRC)):
     d = os.path.join(SRC, sid)
     if not os.path.isfile(os.path.join(d, "patch.diff")):
         continue
-    out = os.path.join(DST, sid)
+    out = os.path.join(DST, PREFIX + sid)
     os.makedirs(out, exist_ok=True)
     for f in os.listdir(d):
         if f in ("patch.diff", "meta.json") or f.startswith("demo") or f.startswith("test_demo"):
